@@ -112,7 +112,7 @@ class Ctx:
 
     MAX_ITERS = 2
 
-    def __init__(self, oracle, atom_abrupt=("raise",), op_raises=False, follow=None, abrupt_by=None):
+    def __init__(self, oracle, atom_abrupt=("raise",), op_raises=False, follow=None, abrupt_by=None, max_iters=None):
         self.o = oracle
         self.trace = []
         self.count = {}
@@ -126,6 +126,8 @@ class Ctx:
         self.thunks = {}
         self.uservals = {}                  # user names whose value is known (stored since the last opaque effect)
         self.heads = {}                     # loop id -> temporaries store at each arrival at the loop head
+        if max_iters is not None:
+            self.MAX_ITERS = max_iters
 
     # -- bookkeeping
     def occ(self, key):
@@ -190,7 +192,7 @@ class Ctx:
             return bool(x)
         if v[0] == "not":
             return not self.truthy(v[1])
-        if v[0] in ("closure", "gen"):
+        if v[0] in ("closure", "gen", "collect"):
             return True
         if v not in self.memo:
             self.memo[v] = bool(self.o.choose(("truthy", v)))
@@ -329,9 +331,7 @@ def ev(c, e):
         return ("closure", id(e), e)
     if isinstance(e, ast.Yield):
         v = ev(c, e.value) if e.value is not None else NONE
-        k = c.occ(("yield",))
-        c.event("yield", v, k)
-        return ("sent", k)
+        return do_yield(c, v)
     if isinstance(e, ast.Await):
         v = ev(c, e.value)
         return c.op(("await",), v)
@@ -357,11 +357,26 @@ def call_closure(c, f):
         return ev(c, node.body)
     is_gen = any(isinstance(n, (ast.Yield, ast.YieldFrom)) for n in ast.walk(ast.Module(body=node.body, type_ignores=[])))
     if is_gen:
-        k = c.occ(("gen", id(node)))
-        g = ("gen", id(node), k)
-        c.thunks[g] = node
-        return g
+        return make_gen(c, lambda: run_function(c, node))
     return run_function(c, node)
+
+
+def make_gen(c, thunk):
+    """A generator object: nothing of its body runs at creation; `force` runs it to exhaustion."""
+    k = c.occ(("gen",))
+    c.event("gen-created", k)
+    g = ("gen", k)
+    c.thunks[g] = thunk
+    return g
+
+
+def force(c, v):
+    """Observe a lazily produced value: a generator is run to exhaustion (its yields become events)."""
+    if isinstance(v, tuple) and v and v[0] == "gen" and v in c.thunks:
+        c.event("gen-forced", v[1])
+        c.thunks.pop(v)()
+        return ("collect", "generator", v[1])
+    return v
 
 
 def run_function(c, node):
@@ -381,60 +396,78 @@ def run_function(c, node):
         c.frame = saved
 
 
-def drive_generator(c, g, consumer):
-    """Run a generator body to completion; every Yield is an event and `consumer(value)` is invoked."""
-    node = c.thunks[g]
-    c.event("gen-start", g[2])
-    saved = c.frame
-    c.frame = Frame(saved)
-    c.frame.vars["<consumer>"] = consumer
-    try:
-        ex(c, node.body)
-    except Abrupt as a:
-        if a.kind != "return":
-            raise
-    finally:
-        c.frame = saved
-    c.event("gen-end", g[2])
+def do_yield(c, v):
+    k = c.occ(("yield",))
+    c.event("yield", v, k)
+    return ("sent", k)
 
 
 def ev_comp(c, e):
-    """[elt for t in iter if ...]: CPython semantics as nested loops in a fresh scope."""
+    """Comprehensions: CPython's semantics as nested loops in a scope of their own."""
     gens = e.generators
     kind = type(e).__name__
     if len(gens) == 1 and not gens[0].ifs and isinstance(gens[0].iter, ast.Call) and not gens[0].iter.args \
             and isinstance(gens[0].iter.func, ast.Name) and is_temp(gens[0].iter.func.id) \
             and isinstance(gens[0].target, (ast.Name, ast.Tuple)) \
             and all(isinstance(n, ast.Name) and is_temp(n.id) for n in ast.walk(gens[0].target) if isinstance(n, ast.Name)):
-        # the wrapper Hy emits around a lifted generator function: [v for v in _hy_f()]
-        g = ev(c, gens[0].iter)
-        if g[0] == "gen":
-            drive_generator(c, g, None)
-            return ("collect", kind, g)
+        # the wrapper Hy emits around a lifted generator function: [v for v in _hy_f()] / {k: v for k, v in _hy_f()}:
+        # it re-collects exactly the yielded items
+        try:
+            clo = c.frame.lookup(gens[0].iter.func.id)
+        except KeyError:
+            clo = None
+        if clo is not None and clo[0] == "closure" and not isinstance(clo[2], ast.Lambda):
+            run_function(c, clo[2])          # the generator is consumed on the spot: its body runs to exhaustion here
+            return ("collect", kind)
+
+    def run_body():
+        saved = c.frame
+        c.frame = Frame(saved)
+        try:
+            def loop(i, first_iter=None):
+                if i == len(gens):
+                    if kind == "DictComp":
+                        kk = ev(c, e.key)
+                        vv = ev(c, e.value)
+                        do_yield(c, c.op(("build", "Tuple"), (kk, vv)))
+                    else:
+                        do_yield(c, ev(c, e.elt))
+                    return
+                g = gens[i]
+                if isinstance(g.iter, ast.Tuple) and len(g.iter.elts) == 1 and not isinstance(g.iter.elts[0], ast.Starred):
+                    # `for t in (v,)`: binds t to v exactly once (how Hy writes :setv inside a native comprehension)
+                    store(c, g.target, ev(c, g.iter.elts[0]))
+                    if all(c.truthy(ev(c, t)) for t in g.ifs):
+                        loop(i + 1)
+                    return
+                it = first_iter if (i == 0 and first_iter is not None) else ev(c, g.iter)
+                for_loop(c, it, g.target, lambda: all(c.truthy(ev(c, t)) for t in g.ifs) and loop(i + 1), None)
+            return loop
+        finally:
+            pass
     if kind == "GeneratorExp":
-        raise Unsupported("native generator expression (lazy) in pysem")
+        # CPython evaluates the outermost iterable when the generator expression is created; the rest is lazy
+        g0 = gens[0]
+        eager = None
+        if not (isinstance(g0.iter, ast.Tuple) and len(g0.iter.elts) == 1):
+            eager = ev(c, g0.iter)
+        saved_frame = c.frame
+
+        def thunk():
+            sv = c.frame
+            c.frame = Frame(saved_frame)
+            try:
+                run_body()(0, eager)
+            finally:
+                c.frame = sv
+        return make_gen(c, thunk)
     saved = c.frame
     c.frame = Frame(saved)
-    k = c.occ(("comp", kind))
-    c.event("comp-start", kind, k)
     try:
-        def loop(i):
-            if i == len(gens):
-                if kind == "DictComp":
-                    kk = ev(c, e.key)
-                    vv = ev(c, e.value)
-                    c.event("yield", ("pair", kk, vv), c.occ(("yield",)))
-                else:
-                    c.event("yield", ev(c, e.elt), c.occ(("yield",)))
-                return
-            g = gens[i]
-            it = ev(c, g.iter)
-            for_loop(c, it, g.target, lambda: all(c.truthy(ev(c, t)) for t in g.ifs) and loop(i + 1), None, comp=True)
-        loop(0)
+        run_body()(0)
     finally:
         c.frame = saved
-    c.event("comp-end", kind, k)
-    return ("collect", kind, k)
+    return ("collect", kind)
 
 
 # ---------------------------------------------------------------------------------------------
@@ -466,13 +499,13 @@ def store(c, t, v):
 def for_loop(c, it_val, target, body, orelse, comp=False):
     k = c.occ(("iter",))
     c.event("iter", it_val, k)
-    if not comp and c.may_raise(("iter", it_val, k)):
+    if c.may_raise(("iter", it_val, k)):
         raise Abrupt("raise", ("exc", "iter", it_val, k))
     it = ("iterator", it_val, k)
     n = 0
     while True:
         c.event("next", it, n)
-        r = c.o.choose(("next", it, n), 2 if comp else 3)     # 0 exhausted, 1 item, 2 raises
+        r = c.o.choose(("next", it, n), 3)     # 0 exhausted, 1 item, 2 raises
         if r == 2:
             raise Abrupt("raise", ("exc", "next", it, n))
         if r == 0:
@@ -712,6 +745,6 @@ def run_result(result, **ctxkw):
 
         def body(c):
             ex(c, result.stmts)
-            return ev(c, result._expr) if result._expr is not None else NONE
+            return force(c, ev(c, result._expr) if result._expr is not None else NONE)
         return outcome(c, body)
     return run
